@@ -311,6 +311,13 @@ func (vr *variableResolver) resolve(ctx *ExecutionContext) (*Value, error) {
 			if part.typ == varTypeIdent {
 				funcValue := current.MethodByName(part.s)
 				if funcValue.IsValid() {
+					if current.Kind() == reflect.Ptr && current.IsNil() {
+						if _, valueReceiver := current.Type().Elem().MethodByName(part.s); valueReceiver {
+							// A method with a value receiver can't be called through
+							// a nil pointer: a nil along the way is just empty.
+							return AsValue(nil), nil
+						}
+					}
 					current = funcValue
 					isFunc = true
 				}
@@ -438,6 +445,10 @@ func (vr *variableResolver) resolve(ctx *ExecutionContext) (*Value, error) {
 			// Check for callable
 			if current.Kind() != reflect.Func {
 				return nil, fmt.Errorf("'%s' is not a function (it is %s)", vr.String(), current.Kind().String())
+			}
+			if current.IsNil() {
+				// A nil function (e. g. an unset func field) is a nil along the way: empty
+				return AsValue(nil), nil
 			}
 
 			// Check for correct function syntax and types
